@@ -66,6 +66,8 @@ class Scenario:
         self.typecfg = typecfg or {}
         self.label = label
         self.source_events = []
+        self.suspend = None  # None = every harness resolver suspends when a scheduler is attached; else a set of paths
+        self.suspend_hooks = False
         self.reset()
 
     def reset(self):
